@@ -78,6 +78,7 @@ def run(ctx):
     # other valid GP mean functions (their hyperparameters have different priors / no priors)
     bases += [job(D, m, seed, extra={"gp_mean_fun": mf, "max_fun_evals": 45 if m == "det" else 75}) for D in (1, 2) for m in ("det", "decl") for mf in ("zero", "negquad")
               if not (q and D == 2 and m == "decl")]
+    bases += [job(D, m, seed, extra={"gp_warnings": True, "max_fun_evals": 45 if m == "det" else 75}) for D in (1,) for m in ("det", "spec")]
     jobs = []
     for b, r in zip(bases, pmap(execute, bases)):
         if r["exc"] is not None:
